@@ -24,7 +24,7 @@ RULE = (
 ASSUMPTIONS = ["only soundness of positive lemma verdicts is a property (the lemma is not complete)", "N = 6 (7 thorough); oracle: vf/oracle/mesh.py"]
 REQUIRED = ["calls.MeshPatt.can_shade", "calls.MeshPatt.can_simul_shade", "calls.MeshPatt.shadable_boxes", "calls.MeshPatt.add_point",
             "calls.MeshPatt.add_increase", "calls.MeshPatt.add_decrease", "calls.MeshPatt.shade", "calls.MeshPatt.ascii_plot",
-            "lemma.positive_single", "lemma.positive_pair", "lemma.table_entries", "insertion.decisions", "plot.parsed"]
+            "lemma.positive_single", "lemma.positive_pair", "lemma.table_entries", "insertion.decisions", "plot.parsed", "history.derived_objects"]
 MIN_NONTRIVIAL = 300
 CTX = None
 MON = None
@@ -343,6 +343,30 @@ def chk_pattern(ctx, ep, full=True):
     P.shade(*ctx.rng.sample(cells, ctx.rng.randint(0, min(3, len(cells)))))
     for cs in (1, 2, 3):
         P.ascii_plot(cs)
+    # history: objects DERIVED through the API (not rebuilt from their value) are asked the same questions after
+    # their parent has been asked - results must depend on the value only
+    if ctx.rng.random() > 0.2:
+        return
+    derived = [P.shade(c) for c in ctx.rng.sample(cells, min(2, len(cells)))]
+    free = [c for c in cells if c not in P.shading]
+    if free and k <= 2:
+        derived.append(P.add_point(ctx.rng.choice(free)))
+    derived.append(P.rotate(ctx.rng.randint(1, 3)))
+    for Q in derived:
+        ctx.count("history.derived_objects")
+        kq = len(Q)
+        for x in range(kq + 1):
+            for y in range(kq + 1):
+                Q.can_shade((x, y))
+                if x < kq:
+                    Q.can_simul_shade((x, y), (x + 1, y))
+                if y < kq:
+                    Q.can_simul_shade((x, y), (x, y + 1))
+        if ctx.rng.random() < 0.3:
+            Q.shadable_boxes()
+        Q2 = Q.shade(ctx.rng.choice([(x, y) for x in range(kq + 1) for y in range(kq + 1)]))
+        Q2.can_shade((0, 0))
+        Q2.can_simul_shade((0, 0), (0, 1)) if kq >= 1 else None
 
 
 CHECKS = {"shade1": chk_shade1, "shade2": chk_shade2, "table": chk_table, "insert": chk_insert, "insert2": chk_insert2,
